@@ -3,9 +3,9 @@ import json
 import os
 import subprocess
 
-from common import CACHE, VERIF, base_env
+from common import CACHE, VERIF, base_env, crate_root
 
-REPLAY_CRATE = os.path.join(VERIF, "replay")
+REPLAY_CRATE = os.path.join(crate_root(), "replay")
 TARGET = os.path.join(CACHE, "replay")
 _built = {}
 
@@ -66,3 +66,30 @@ def replay_both(harness, values, features=()):
     rel = run(harness, values, "release", features)
     reproduced = dev["outcome"] in ("fail", "crash") or rel["outcome"] in ("fail", "crash")
     return {"dev": dev, "release": rel, "reproduced": reproduced}
+
+
+def run_files(files, entry, profile="dev"):
+    """Write `files` ({relative name: text}) to a scratch directory and compile `entry` from disk."""
+    import shutil
+    import tempfile
+    exe = build(profile)
+    d = tempfile.mkdtemp(prefix="probe-", dir=CACHE)
+    try:
+        for name, text in files.items():
+            p = os.path.join(d, name)
+            os.makedirs(os.path.dirname(p), exist_ok=True)
+            with open(p, "w") as f:
+                f.write(text)
+        try:
+            p = subprocess.run([exe, "--scss-file", os.path.join(d, entry)], capture_output=True, text=True, timeout=120)
+        except subprocess.TimeoutExpired:
+            return {"outcome": "crash", "message": "timeout"}
+        for line in p.stdout.split("\n"):
+            if line.strip().startswith("{"):
+                try:
+                    return json.loads(line)
+                except ValueError:
+                    pass
+        return {"outcome": "crash", "message": f"exit {p.returncode}: {p.stderr[-300:]}"}
+    finally:
+        shutil.rmtree(d, ignore_errors=True)
